@@ -69,6 +69,7 @@ class Cli:
         self.initialized = False
         self.models_data: Dict[str, Iterable[dict]] = {}  # -m/-l
         self.enable_datetime: bool = False  # --datetime
+        self.disabled_str_types: List[str] = []  # --disable-str-serializable-types
         self.strings_converters: bool = False  # --strings-converters
         self.max_literals: int = -1  # --max-strings-literals
         self.merge_policy: List[ModelCmp] = []  # --merge
@@ -104,7 +105,8 @@ class Cli:
         dict_keys_fields: List[str] = namespace.dict_keys_fields
         preamble: str = namespace.preamble
 
-        for name in namespace.disable_str_serializable_types:
+        self.disabled_str_types = list(namespace.disable_str_serializable_types)
+        for name in self.disabled_str_types:
             registry.remove_by_name(name)
 
         self.setup_models_data(namespace.model or (), namespace.list or (), parser)
@@ -112,9 +114,15 @@ class Cli:
         self.set_args(merge_policy, structure, framework, code_generator, code_generator_kwargs_raw,
                       dict_keys_regex, dict_keys_fields, disable_unicode_conversion, preamble)
 
+    def register_datetime_classes(self):
+        register_datetime_classes()
+        # The datetime classes are registered after the arguments were parsed: disabled ones have to be removed again
+        for name in self.disabled_str_types:
+            registry.remove_by_name(name)
+
     def run(self):
         if self.enable_datetime:
-            register_datetime_classes()
+            self.register_datetime_classes()
         generator = MetadataGenerator(
             dict_keys_regex=self.dict_keys_regex,
             dict_keys_fields=self.dict_keys_fields
